@@ -33,7 +33,7 @@ QUICK_BUNDLED = ["HED8.3.0.xml", "HED_score_2.0.0.xml", "HED_testlib_2.0.0.xml"]
 
 # known findings (descriptions inside the allowed class for which a writer/reader pair is not inverse)
 F1, F2, F3 = "C05-F1", "C05-F2", "C05-F3"
-# VERIF_C05_FIXED=1 (default): the code under test carries the repairs fix-F1..F4.  F1, F2, F4 and the
+# VERIF_C05_FIXED=1 (default): the code under test carries fix commits 4719ff8 (F1), 394565c (F2), 784517a (F3), 8fb8446 (F4).  F1, F2, F4 and the
 # 'extend here' half of F3 are then ordinary violations; what stays a registered finding is the rest of F3
 # (<nowiki> / </nowiki> inside a description are deleted by the MediaWiki reader).  VERIF_C05_FIXED=0 is the
 # oracle for the unrepaired code with all four finding classes.
@@ -42,6 +42,7 @@ FIXED5 = K.FIXED5      # VERIF_C05_FIXED_F5 (default 1, fix 4b4f5c6 is in /repo)
 F5 = "C05-F5"
 FIXED7 = K.FIXED7      # VERIF_C05_FIXED_F7 (default 1: fix commit f2636f2 is in /repo)
 F7 = "C05-F7"     # merged MediaWiki save: a library node rooted in a tree without extensionAllowed reloads under a wrong parent
+F8 = "C05-F8"     # a TSV location named *.TSV / *.Tsv cannot be loaded back
 F6 = "C05-F6"     # a name holding a tab or line feed (allowedCharacter=tab/newline): no TSV cell / MediaWiki line can hold it
 WIKI_RESERVED = ("<nowiki>", "</nowiki>") if FIXED else ("extend here", "<nowiki>", "</nowiki>")
 
@@ -190,7 +191,7 @@ def listing(root, norm_desc=False, norm_name=False):
     part of a description, a description of white space only is absent (the rule all three readers follow since
     the repair of C05-F1)."""
     items = collections.Counter()
-    # norm_name (expectation side only, with fix-F5): outer white space is not part of a name either
+    # norm_name (expectation side only, since fix commit 4b4f5c6): outer white space is not part of a name either
     nn = (lambda x: x.strip() if isinstance(x, str) else x) if norm_name else (lambda x: x)  # noqa
     _item_ = lambda k, key, el: _item(k, tuple(nn(x) for x in key), el, norm_desc)  # noqa
 
@@ -463,6 +464,9 @@ def _boundary_desc(rng, new_era):
 
 
 def _clean_desc(rng, new_era):
+    if rng.random() < 0.12:
+        # the whole cell is a text CSV / pandas machinery may take for a missing value or a literal
+        return rng.choice(K.CELL_SPECIAL)
     r = rng.random()
     if r < 0.10:
         return rng.choice(DESC_SPECIAL_NEW if new_era else DESC_SPECIAL_OLD)
@@ -592,6 +596,11 @@ class _Gen:
 
     def other_name(self, suffix=""):
         rng, new = self.rng, self.c.new_era
+        if not suffix and rng.random() < 0.08:
+            for nm in rng.sample(K.CELL_SPECIAL, len(K.CELL_SPECIAL)):
+                if all(ch.isalnum() or ch in "-._" for ch in nm) and nm.casefold() not in self.other_names:
+                    self.other_names.add(nm.casefold())
+                    return nm
         for _ in range(200):
             chars = LO * 4 + UP + DG + "-" + NA_LO + ("._" if new else "_")
             nm = rng.choice(LO + UP + NA_LO) + "".join(rng.choice(chars) for _ in range(rng.choice([1, 2, 4, 7]))) \
@@ -985,6 +994,22 @@ def _corpus():
         {"op": "add", "kind": "add_rooted", "sec": "schema", "path": [], "at": 0,
          "elem": {"tag": "node", "name": "Zz-rooted", "desc": None, "attrs": [["rooted", ["Avatar-agent"]]],
                   "children": [{"tag": "node", "name": "Zz-rooted-child", "desc": "d", "attrs": [], "children": []}]}}]})
+    # regression: whole-cell texts that CSV machinery may take for a missing value, as descriptions of a node, a value
+    # taking child, a unit class, a unit and a value class; saved under a dotted folder name
+    sp = list(K.CELL_SPECIAL)
+    cs.append({"kind": "edit", "schema": "HED8.3.0.xml", "base": "merged", "files": True, "tsv_loc": "HED8.3.0", "file_stem": "HED8.3.0", "ops": [
+        {"op": "add", "kind": "witness", "sec": "schema", "path": [], "at": None,
+         "elem": {"tag": "node", "name": "Zz-cell-%d" % i, "desc": t, "attrs": [], "children": (
+             [{"tag": "node", "name": "#", "desc": t, "attrs": [["takesValue", []]], "children": []}] if i % 5 == 0 else [])}}
+        for i, t in enumerate(sp)] + [
+        {"op": "add", "kind": "witness", "sec": "unitClassDefinitions", "path": [], "at": None,
+         "elem": {"tag": "unitClassDefinition", "name": "zzcellUnits", "desc": "n/a", "attrs": [],
+                  "children": [{"tag": "unit", "name": "zzcell", "desc": "n/a", "attrs": []},
+                               {"tag": "unit", "name": "nan", "desc": "NA", "attrs": []}]}},
+        {"op": "add", "kind": "witness", "sec": "valueClassDefinitions", "path": [], "at": None,
+         "elem": {"tag": "valueClassDefinition", "name": "zzcellClass", "desc": "n/a", "attrs": []}}]})
+    # C05-F8: a TSV location named *.TSV
+    cs.append({"kind": "bundled", "schema": "HED8.0.0.xml", "tsv_loc": "x.TSV", "expect_fid": F8})
     # C05-F6: a unit whose name holds a tab, admitted through allowedCharacter=tab
     cs.append({"kind": "edit", "schema": "HED8.3.0.xml", "base": "merged", "files": False, "expect_fid": F6, "ops": [
         {"op": "add", "kind": "witness", "sec": "unitClassDefinitions", "path": ["weightUnits"], "at": None,
@@ -1081,6 +1106,12 @@ def gen_edit_case(rng, schema, base, boundary=None, plant_names=True):
     ops = g.run(rng.choice([1, 1, 2, 2, 3, 4]))
     case = {"kind": "edit", "schema": schema, "base": base, "ops": ops,
             "files": rng.random() < 0.35}
+    # names of the save locations (dots, the .tsv form, suffix case, blanks): an input dimension of the round trip
+    if rng.random() < 0.5:
+        case["tsv_loc"] = rng.choice(K.LOC_NAMES + ([x for x in K.LOC_NAMES_UPPER] if rng.random() < 0.25 else []))
+    if case["files"] and rng.random() < 0.6:
+        case["file_stem"] = rng.choice(["HED8.3.0", "a.b", "x.tsv", "UPPER", "sp ace", "v1.", ".dot"])
+        case["ext_upper"] = rng.random() < 0.3
     if g.planted and any(el.text == g.planted_text for el in g.root.iter("description")):
         case["planted"] = g.planted
     if g.planted_name and any(el.text == g.planted_name for el in g.root.iter("name")):
@@ -1094,7 +1125,8 @@ def gen_cases(rng, tier):
     cases = []
     names = bundled() if tier == "thorough" else [b for b in QUICK_BUNDLED if b in have]
     for b in names:
-        cases.append({"kind": "bundled", "schema": b})
+        # a bundled schema is saved under its own name (HED8.3.0, HED_score_2.0.0: the docstring's example)
+        cases.append({"kind": "bundled", "schema": b, "tsv_loc": b[:-4], "file_stem": b[:-4]})
     mix = EDIT_MIX_THOROUGH if tier == "thorough" else EDIT_MIX_QUICK
     for schema, base, n in mix:
         if schema not in have:
@@ -1209,7 +1241,7 @@ def _edit_descs(case):
 
 def _rooted_edit(case):
     """Names of the nodes the edit adds with a rooted attribute."""
-    return [(op["elem"]["name"] or "").strip() for op in case.get("ops", [])      # names are stripped on load (fix-F5)
+    return [(op["elem"]["name"] or "").strip() for op in case.get("ops", [])      # names are stripped on load (fix commit 4b4f5c6)
             if op["op"] == "add" and any(a[0] == "rooted" for a in op["elem"].get("attrs", []))]
 
 
@@ -1231,6 +1263,9 @@ def classify(fmt, diffs, exc, case):
     raised `exc`)."""
     descs = _edit_descs(case)
     fam = _family(fmt)
+    loc = case.get("tsv_loc") or ""
+    if not K.FIXED8 and fam == "tsv" and exc is not None and loc.lower().endswith(".tsv") and not loc.endswith(".tsv"):
+        return F8      # the location just written is looked for as a folder (suffix compared exactly)
     ctl = [n for n in _edit_names(case) if "\t" in n or "\n" in n]
     if ctl:
         # C05-F6: the TSV writer cannot write a cell holding a tab or line feed (QUOTE_NONE: 'need to escape'); a
@@ -1418,14 +1453,20 @@ def run_case(case):
     return res
 
 
-def _reload(orig, fmt, m, d, tag):
-    """Save `orig` in one format / mode / variant and load the result.  Returns (schema, saved xml text or None)."""
+def _reload(orig, fmt, m, d, tag, case=None):
+    """Save `orig` in one format / mode / variant and load the result.  Returns (schema, saved xml text or None).
+    The names of the save locations are an input dimension: case["tsv_loc"] (last component of the TSV location),
+    case["file_stem"] / case["ext_upper"] (XML and MediaWiki files)."""
     from hed.schema import load_schema, from_string
+    case = case or {}
+    stem = case.get("file_stem") or "f"
+    up = (lambda e: e.upper()) if case.get("ext_upper") else (lambda e: e)
     if fmt == "xml":
         text = orig.get_as_xml_string(m)
         return from_string(text, ".xml"), text
     if fmt == "xml-file":
-        p = os.path.join(d, f"{tag}.xml")
+        p = os.path.join(d, tag, stem + up(".xml"))
+        os.makedirs(os.path.dirname(p), exist_ok=True)
         orig.save_as_xml(p, m)
         with open(p, encoding="utf-8") as f:
             text = f.read()
@@ -1433,11 +1474,12 @@ def _reload(orig, fmt, m, d, tag):
     if fmt == "mediawiki":
         return from_string(orig.get_as_mediawiki_string(m), ".mediawiki"), None
     if fmt == "mediawiki-file":
-        p = os.path.join(d, f"{tag}.mediawiki")
+        p = os.path.join(d, tag, stem + up(".mediawiki"))
+        os.makedirs(os.path.dirname(p), exist_ok=True)
         orig.save_as_mediawiki(p, m)
         return load_schema(p), None
     if fmt == "tsv":
-        p = os.path.join(d, f"{tag}_tsv", "sch")
+        p = os.path.join(d, f"{tag}_tsv", case.get("tsv_loc") or "sch")
         orig.save_as_dataframes(p, m)
         return load_schema(p), None
     raise ValueError(fmt)
@@ -1527,7 +1569,7 @@ def _run_case(case, res, d):
         for fmt in fmts:
             r, xml_text, exc = None, None, None
             try:
-                r, xml_text = _reload(orig, fmt, m, d, f"s{int(m)}")
+                r, xml_text = _reload(orig, fmt, m, d, f"s{int(m)}", case)
             except Exception as e:  # noqa
                 exc = e
             res["n_roundtrips"] += 1
